@@ -88,7 +88,7 @@ func c04Gen(r *rand.Rand, tier string) []spec.Case {
 				pk = append(pk, j == 0 || r.Intn(2) == 0)
 			}
 		}
-		add(spec.C04Case{Pattern: "cleanup", Proto: pr, Launch: la, Behaviours: bs, PreKill: pk})
+		add(spec.C04Case{Pattern: "cleanup", Proto: pr, Launch: la, Behaviours: bs, PreKill: pk, PreCleanup: i%3 == 2, DoubleCleanup: i%2 == 0})
 	}
 	return out
 }
@@ -114,6 +114,7 @@ func c04Judge(c spec.Case, evs []spec.Event, d *Death) CaseResult {
 		if len(p.PreKill) > 0 {
 			res.Class += fmt.Sprintf("|killed-before-start=%v", p.PreKill)
 		}
+		res.Class += fmt.Sprintf("|precleanup=%v|double=%v", p.PreCleanup, p.DoubleCleanup)
 	}
 	res.Sample = map[string]any{"case": p, "observed": o.Clients}
 	viol := func(key, msg string) {
@@ -150,7 +151,8 @@ func c04Judge(c spec.Case, evs []spec.Event, d *Death) CaseResult {
 		// (busy-exit-1200: a call that ignores cancellation is in flight when Kill is called, and the plugin
 		// needs 1.2 s of cleanup once asked to stop: still well inside the grace period)
 		graceful := b == "exit-now" || b == "exit-200" || b == "exit-600" || b == "exit-1000" || b == "busy-exit-1200"
-		if graceful && (p.Pattern == "single" || p.Pattern == "sequential" || p.Pattern == "cleanup") {
+		// (two overlapping CleanupClients calls are concurrent Kill calls: see the assumptions)
+		if graceful && (p.Pattern == "single" || p.Pattern == "sequential" || p.Pattern == "cleanup") && !p.DoubleCleanup {
 			if !cl.Marker {
 				viol("force-killed-inside-grace:"+b, fmt.Sprintf("the plugin exits by itself (%s) well inside the 2 s grace period but did not get to finish its cleanup (no marker): it was force-killed; Kill took %d ms", b, cl.KillMs))
 			} else {
@@ -170,6 +172,14 @@ func c04Judge(c spec.Case, evs []spec.Event, d *Death) CaseResult {
 			res.Slow = fmt.Sprintf("Kill(%s/%s) took %d ms", b, p.Proto, cl.KillMs)
 		}
 	}
+	for i, st := range o.SecondReturnStates {
+		if st != "gone" && st != "Z" && st != "nopid" && i < len(o.Clients) && o.Clients[i].SetupErr == "" {
+			viol("second-cleanup-returned-early", fmt.Sprintf("a second CleanupClients call (issued 150 ms after the first, which was still at work) returned while the managed %s plugin pid %d was in state %q", o.Clients[i].Behaviour, o.Clients[i].Pid, st))
+		}
+	}
+	if p.DoubleCleanup {
+		res.Counters["overlapping_cleanup_rounds"]++
+	}
 	if p.Pattern == "cleanup" && o.KilledFlag != 1 {
 		viol("killed-flag", "plugin.Killed is not 1 after CleanupClients")
 	}
@@ -181,10 +191,10 @@ func init() {
 		ID: "C04", Level: "exploration", Race: true, TestName: "TestC04",
 		Gen: c04Gen, Batch: 16, Children: 6, PerCase: 6 * time.Second, Base: 240 * time.Second,
 		Judge: c04Judge, Finish: func(r *Run) { r.raceSummary("C04") },
-		Rule: "cases = plugin shutdown behaviour (exits at once / 200, 600, 1000 ms after the shutdown request / 1200 ms after it with a call that ignores cancellation in flight / never / never, while logging a line to stderr every 250 ms / alive with nothing listening at the announced address (Client() fails first) / busy handler / SIGSTOPped, state T awaited / already SIGKILLed / failed handshake) x protocol (net/rpc, gRPC, gRPC+mux) x launch (Cmd, custom runner around a real process, the same runner with a Kill that honours its context, reattach) x call pattern (one Kill, three sequential, four concurrent, CleanupClients over 1/3/6 managed clients in mixed states, own host process each; in half of those rounds some clients had Kill called on them before their Start). Real vplugin subprocesses; the plugin writes a marker file after its cleanup, the monitor reads /proc/<pid>/stat, Exited() and the marker after Kill returns. Quick runs every (behaviour, protocol) cell once plus a seeded third of the remaining product; frozen net/rpc and mux (45 s keep-alive bound) only in thorough. Class = behaviour|protocol|launch|pattern",
+		Rule: "cases = plugin shutdown behaviour (exits at once / 200, 600, 1000 ms after the shutdown request / 1200 ms after it with a call that ignores cancellation in flight / never / never, while logging a line to stderr every 250 ms / alive with nothing listening at the announced address (Client() fails first) / busy handler / SIGSTOPped, state T awaited / already SIGKILLed / failed handshake) x protocol (net/rpc, gRPC, gRPC+mux) x launch (Cmd, custom runner around a real process, the same runner with a Kill that honours its context, reattach) x call pattern (one Kill, three sequential, four concurrent, CleanupClients over 1/3/6 managed clients in mixed states, own host process each; in half of those rounds some clients had Kill called on them before their Start; in some CleanupClients already ran once before the first client was started, and in half a second CleanupClients call overlaps the first). Real vplugin subprocesses; the plugin writes a marker file after its cleanup, the monitor reads /proc/<pid>/stat, Exited() and the marker after Kill returns. Quick runs every (behaviour, protocol) cell once plus a seeded third of the remaining product; frozen net/rpc and mux (45 s keep-alive bound) only in thorough. Class = behaviour|protocol|launch|pattern",
 		Assumptions: []string{
 			"delays inside the grace period are 200/600/1000 ms; the ambiguous band around 2 s is never generated",
-			"the 'allowed to finish its cleanup' clause is judged for single, sequential and CleanupClients patterns; with concurrent Kill calls the statement only promises no panic and no hang",
+			"the 'allowed to finish its cleanup' clause is judged for single, sequential and CleanupClients patterns; with concurrent Kill calls (also those of two overlapping CleanupClients calls) the statement only promises no panic and no hang",
 			"hang threshold H = max(4N, N+15 s) with N = 3 s (5 s frozen gRPC, 45 s frozen net/rpc / mux)",
 		},
 	})
